@@ -1,4 +1,5 @@
 import LarkVerif.LexModel
+import LarkVerif.LexTiling
 import LarkVerif.Extracted
 /-! # C07 — the lexer tiles the input by documented precedence; contextual refines basic -/
 namespace Props.C07
@@ -23,6 +24,19 @@ theorem lex_tiles (m : Matcher) (ts : List Nat) (n : Nat) (hpos : ∀ t p len, m
       ((lexAll m ts n fuel pos).2 = none → stop = n) ∧
       (∀ e, (lexAll m ts n fuel pos).2 = some e → stop = e ∧ e < n ∧ firstMatch m e ts = none) :=
   lexAll_tiles m ts n hpos fuel pos h1 h2
+
+/-- **Tiling of the executable basic-lexer model** (sort, keyword carve-out, retyping, ignore skipping): all pieces — emitted and ignored — are
+    consecutive and non-empty; each is the first terminal of the scan list that matches at its start, with its own length, reported under the
+    keyword-exception type; the run ends at the end of the text or at the first position where nothing in the scan list matches. -/
+theorem executable_lexer_tiles (L : Lexer) (F : Facts) (subset : List Nat) (n : Nat)
+    (hpos : ∀ t p len, F.mt t p = some len → 0 < len ∧ p + len ≤ n) (fuel pos : Nat) (h1 : pos ≤ n) (h2 : n - pos ≤ fuel) :
+    let r := L.lexAllPieces F subset n fuel pos
+    Tiles' pos r.1 r.2.1 ∧
+    (∀ pc ∈ r.1, ∃ t, firstMatch F.mt pc.2.1 (L.scanList (L.sorted subset)) = some (t, pc.2.2.1) ∧
+                      pc.1 = L.retype F (L.sorted subset) t pc.2.1 pc.2.2.1 ∧ pc.2.2.2 = L.ignore.contains pc.1) ∧
+    (r.2.2 = false → r.2.1 = n) ∧
+    (r.2.2 = true → r.2.1 < n ∧ firstMatch F.mt r.2.1 (L.scanList (L.sorted subset)) = none) :=
+  lexAllPieces_tiles L F subset n hpos fuel pos h1 h2
 
 /-- splitting the alternation into chunks (Python's 100-group limit) never changes the token -/
 theorem chunking_irrelevant (m : Matcher) (pos : Nat) (a b : List Nat) :
